@@ -23,6 +23,7 @@ from __future__ import annotations
 
 import asyncio
 import collections
+import gc
 import os
 import random
 import struct
@@ -725,8 +726,17 @@ def _b1(chk: Check, consts, label, layouts=(0, 1)):
     if len(tables) != 1:
         raise common.MachineryError("UdpProxy_MBT printed %d table records" % len(tables))
     g = Graph(recs)
+    table = tables[0]["table"]
+    # memory: 1.4M edges in thorough; every edge shares the state objects instead of its own parsed
+    # copies, the raw TLC output and record list go away, and the heap is frozen before forking so
+    # that the workers do not copy it page by page
+    for e in g.edges:
+        e["src"], e["dst"] = g.states[e["_s"]], g.states[e["_d"]]
+    del recs, tables
+    res.out = ""
+    gc.collect()
     _prep(g)
-    _G, _TABLE, _CONST, _SEED = g, tables[0]["table"], consts, chk.seed
+    _G, _TABLE, _CONST, _SEED = g, table, consts, chk.seed
     keys = sorted(g.parent)
     if layouts == "alternate":     # every state in one of the two layouts
         tasks = [(k, zlib.crc32(("%d|%s" % (chk.seed, k)).encode()) % 2) for k in keys]
@@ -735,7 +745,11 @@ def _b1(chk: Check, consts, label, layouts=(0, 1)):
         tasks = [(k, li) for li in layouts for k in keys]
     random.Random(chk.seed).shuffle(tasks)
     t0 = time.time()
-    results = common.parallel_map(_replay_states, common.chunked(tasks, common.NCPU * 3))
+    gc.freeze()
+    try:
+        results = common.parallel_map(_replay_states, common.chunked(tasks, common.NCPU * 3))
+    finally:
+        gc.unfreeze()
     chk.notes.append("B1 %s: %d states x %d layouts replayed in %.1fs" % (label, len(keys), len(layouts), time.time() - t0))
     n = sum(r[0] for r in results)
     chk.count(n)
